@@ -22,7 +22,7 @@ Definition strict (e : engine) (q : quirks) : Prop :=
   on e q q_enum_name_alias = false /\ on e q q_enum_type_unchecked = false /\
   on e q q_nullable_sum_panic = false /\ on e q q_int_narrow = false /\
   ong e q qg_tuple_missing = false /\ ong e q qg_nullable_kinded_null = false /\
-  ong e q qg_stringprefix_split = false.
+  ong e q qg_stringprefix_split = false /\ ong e q qg_map_kv_dup = false.
 
 Lemma strict_bind_qoff : strict Bind qoff.
 Proof. unfold strict, on, ong; cbn. repeat split; reflexivity. Qed.
@@ -396,12 +396,12 @@ Section Step.
          then match mapM (map_entry_spec nul c) m with Some vs => Some (st ++ vs) | None => None end
          else None).
   Proof.
-    intros Hc. destruct Hs as (_&Hd&_).
+    intros Hc. destruct Hs as (_&Hd&_&_&_&_&_&_&_&_&_&_&_&_&_&Hgd).
     induction m as [|[k d] m IH]; intros st.
     - cbn. now rewrite app_nil_r.
     - cbn [b_fold map fst nodupb forallb]. unfold b_map_entry at 1. cbn [fst snd].
       destruct (existsb (fun x => bytes_eqb (fst x) k) st) eqn:Ex.
-      + rewrite Hd. cbn. rewrite andb_false_r. exact I.
+      + rewrite Hd, Hgd. cbn. rewrite andb_false_r. exact I.
       + cbn [negb andb].
         pose proof (maybe_sim nul c d Hc) as Hm.
         destruct (b_maybe e q lvl rb nul c d) as [v| |]; destruct (conf_maybe rc nul c d) as [v'|] eqn:Ev;
@@ -746,7 +746,7 @@ Section Step.
           { destruct (rb (snd mi) false d); destruct (rc (snd mi) d); cbn in *; try contradiction; subst; auto. }
           destruct d; try contradiction; exact G.
         * destruct d; try contradiction; try exact I.
-          destruct Hs as (_&_&_&_&_&_&_&_&_&_&Hnp&_&_&_&Hsp). rewrite Hsp. cbn [andb].
+          destruct Hs as (_&_&_&_&_&_&_&_&_&_&Hnp&_&_&_&Hsp&_). rewrite Hsp. cbn [andb].
           destruct (sp_parse delim ms s) as [[[i mi] rest]|] eqn:E; [|exact I].
           rewrite Hnp, andb_false_r.
           assert (Hmw : wf (snd mi) = true).
